@@ -57,6 +57,12 @@ def cases(tier, seed):
         i += 1
         if len(out) >= limit:
             break
+    # the multi-start / beam modes emit their first action without any distribution: the environment's start rule. Batches with
+    # rows that have only a few (or no) feasible first customers, and more starts than twice that number (several laps)
+    for n in ((6, 10) if tier == "quick" else (6, 10, 20)):
+        for B_ in (2, 4):
+            for r in range(3 if tier == "quick" else 10):
+                out.append(dict(kind="start_rule", cfg=dict(env="op", n=n), B=B_, s=rnd.randrange(10**6), hostile=True, k=rnd.choice([2 * n, 3 * n, n + 1])))
     return out
 
 
@@ -127,6 +133,11 @@ def ref_dist(x64, mask, T, clip):
 
 
 def run_case(ctx, case):
+    if case.get("kind") == "start_rule":
+        from vlib import c12impl
+
+        ctx.count("c10_start_rule_cases")
+        return c12impl.starts_case(ctx, case)
     import torch
     from tensordict import TensorDict
 
